@@ -11,12 +11,14 @@ sys.path.insert(0, os.path.join(vlib.VERIF, "corr", "real"))
 import runner  # noqa: E402
 
 PROP_FILE = "Props/C19.v"
-THEOREMS = ["C19_check", "C19_iff", "C19_refused_spawns_nothing", "C19_depth_invariant", "C19_bound",
-            "C19_child_depth", "C19_max_depth_env", "C19_structure"]
+THEOREMS = ["C19_check", "C19_iff", "C19_refused_spawns_nothing", "C19_depth_invariant", "C19_worker_sees_parent_plus_one",
+            "C19_bound_partial", "C19_bound_refuted_while_loading", "C19_child_depth", "C19_max_depth_env", "C19_structure"]
 ASSUME = [
     "start methods are compared by name as context.get_start_method() returns it",
     "the only writer of the per-process depth is the worker prologue (checked structurally on the source each run)",
     "process creation/spawn is an abstract event of the tree model; the OS-level spawn is exercised by the real-process scenarios",
+    "a worker's phases (loading its arguments / inside the initializer / running) and when the depth variable is installed are the "
+    "model's reading of popen_loky_posix.__main__ and _process_worker; the two orderings that matter are generated facts",
 ]
 METHODS = ["loky", "loky_init_main", "spawn", "forkserver", "fork"]
 
@@ -63,6 +65,69 @@ if __name__ == "__main__":
     r.shutdown(wait=True)
     print(json.dumps(out))
 '''
+
+
+# user code that runs inside a worker BEFORE its main loop: the initializer (mode init) or the unpickling of the worker's
+# arguments (mode load) constructs an executor -- and, for init, uses it at once.  The property: construction succeeds iff the
+# worker's depth is below the limit, and a nested worker sees that depth + 1.
+WINDOW = r'''
+import json, os, sys
+import loky.process_executor as pe
+from loky.process_executor import ProcessPoolExecutor, LokyRecursionError
+
+def depth():
+    import loky.process_executor as pe
+    return pe._CURRENT_DEPTH
+
+def build(use):
+    import loky, loky.process_executor as pe
+    rec = {"seen": pe._CURRENT_DEPTH}
+    try:
+        e = ProcessPoolExecutor(1)
+        rec["construct"] = "ok"
+        if use:
+            rec["nested"] = e.submit(depth).result(60)
+            e.shutdown(wait=True)
+        else:
+            loky._e = e
+    except LokyRecursionError:
+        rec["construct"] = "LokyRecursionError"
+    loky._rec = rec
+    return 0
+
+class AtUnpickle:
+    def __reduce__(self):
+        return (build, (False,))
+
+def noop(*a):
+    pass
+
+def report():
+    import loky, loky.process_executor as pe
+    r = dict(loky._rec)
+    r["depth"] = pe._CURRENT_DEPTH
+    if hasattr(loky, "_e"):
+        r["nested"] = loky._e.submit(depth).result(60)
+        loky._e.shutdown(wait=True)
+    return r
+
+if __name__ == "__main__":
+    mode = sys.argv[1]
+    if mode == "init":
+        e = ProcessPoolExecutor(1, initializer=build, initargs=(True,))
+    else:
+        e = ProcessPoolExecutor(1, initializer=noop, initargs=(AtUnpickle(),))
+    out = {"max_depth": pe.MAX_DEPTH, "worker": e.submit(report).result(150)}
+    e.shutdown(wait=True)
+    print(json.dumps(out))
+'''
+
+
+def window_expected(MAX):
+    # the outer worker runs at depth 1
+    if MAX <= 0 or 1 < MAX:
+        return {"construct": "ok", "nested": 2, "depth": 1}
+    return {"construct": "LokyRecursionError", "depth": 1}
 
 
 def oracle(method, MAX, d):
@@ -151,6 +216,30 @@ def run(ctx):
                 "LOKY_MAX_DEPTH": MAX, "method": method, "expected_chain": exp, "expected_reuse_depths": [1],
                 "got": got, "stderr": res["stderr"][-1500:], "timed_out": res["timed_out"]})
             ctx.violations.append((f"nested run LOKY_MAX_DEPTH={MAX} method={method} deviates", rp, False))
+    # executors constructed by user code that runs before the worker's main loop
+    wplans = [("init", 1), ("init", 2), ("load", 1)] if ctx.tier == "quick" else \
+        [("init", 1), ("init", 2), ("init", 3), ("init", 0), ("load", 1), ("load", 2), ("load", 0)]
+    windows = []
+    from checks import simcommon
+    for mode, MAX in wplans:
+        res = runner.run_script(WINDOW, vlib.REPO, env={"LOKY_MAX_DEPTH": str(MAX)}, timeout=300, args=(mode,))
+        got = runner.last_json(res)
+        exp = window_expected(MAX)
+        w = (got or {}).get("worker") or {}
+        okw = got is not None and {k: w.get(k) for k in exp} == exp and ("nested" in exp or "nested" not in w)
+        windows.append({"mode": mode, "LOKY_MAX_DEPTH": MAX, "ok": okw, "got": w})
+        if okw:
+            continue
+        sig = f"depth-check-bypassed window[{mode}] construct[{w.get('construct')}] seen[{w.get('seen')}] nested[{w.get('nested')}] MAX[{MAX}]"
+        kf = simcommon.match_known("C19", sig)
+        if kf is not None:
+            if not any(k.startswith(kf["id"] + " ") for k in ctx.known):
+                ctx.known.append(f"{kf['id']} {kf['title']}")
+            continue
+        rp = vlib.write_replay(ctx, f"window_{mode}_{MAX}", {
+            "kind": "an executor constructed inside a worker before its main loop escapes the depth rule", "signature": sig,
+            "mode": mode, "LOKY_MAX_DEPTH": MAX, "expected": exp, "got": got, "stderr": res["stderr"][-1200:]})
+        ctx.violations.append((sig, rp, False))
     if not pr["ok"] and not ctx.violations:
         rp = vlib.write_replay(ctx, "broken", {"kind": "proof obligation / translation no longer checks",
                                                "detail": pr.get("broken"),
@@ -170,7 +259,7 @@ def run(ctx):
                 "_check_max_depth with substituted module globals (every triple distinct and decides one branch pair); "
                 "real-process runs: executors nested to MAX+1 (or 4 when unlimited) under LOKY_MAX_DEPTH, plus "
                 "reuse / idle-timeout respawn / resize depth observation",
-        "traces_validated_against_impl": len(plans),
+        "traces_validated_against_impl": len(plans) + len(wplans), "startup_windows": windows,
         "disagreements_model_vs_impl": disagreements,
         "property_oracle_failures": len(fails),
         "samples": scen[:2] + [{"triple": grid[37], "real": real[37]}],
@@ -184,6 +273,13 @@ def replay(ctx, path):
         got = real_check([(r["method"], r["MAX_DEPTH"], r["current_depth"])])[0]
         print("real:", got, "expected:", r["expected"])
         return 0 if got == r["expected"] else 1
+    if "mode" in r and "signature" in r:
+        res = runner.run_script(WINDOW, vlib.REPO, env={"LOKY_MAX_DEPTH": str(r["LOKY_MAX_DEPTH"])}, timeout=300, args=(r["mode"],))
+        got = runner.last_json(res)
+        w = (got or {}).get("worker") or {}
+        exp = window_expected(r["LOKY_MAX_DEPTH"])
+        print("got:", w, "expected:", exp)
+        return 0 if got is not None and {k: w.get(k) for k in exp} == exp and ("nested" in exp or "nested" not in w) else 1
     maxlevel = (r["LOKY_MAX_DEPTH"] + 2) if r["LOKY_MAX_DEPTH"] >= 1 else 4
     res = runner.run_script(NEST, vlib.REPO, env={"LOKY_MAX_DEPTH": str(r["LOKY_MAX_DEPTH"])}, timeout=400,
                             args=(maxlevel, r["method"]))
